@@ -176,14 +176,15 @@ def expected(v):
                     exp["pv"] = txt
                 elif st == "unclear":
                     exp["pv"] = None
-                exp["why"]["pv"] = arg
+                exp["why"].setdefault("pv", []).append(arg)
         elif n == b"no-cache":
             if arg is None:
                 exp["mask"] |= 1 << BIT[n]; done.add(n)
             else:
                 st, txt = quoted(arg)
+                exp["why"].setdefault("nc", []).append(arg)
                 if st == "ok":
-                    exp["mask"] |= 1 << BIT[n]; exp["nc"] = txt; done.add(n); exp["why"]["nc"] = arg
+                    exp["mask"] |= 1 << BIT[n]; exp["nc"] = txt; done.add(n)
                 elif st == "unclear":
                     exp["nc"] = None; exp["mask_nc_unclear"] = True; done.add(n)
     exp["ot"] = b", ".join(other)
@@ -216,15 +217,30 @@ def has_special_pair(arg):
 
 
 def has_htab(arg):
+    """does the quoted argument contain an HTAB (bare or escaped, not the one of a fold) before its closing quote?"""
     i = 1
     while i < len(arg):
         c = arg[i]
         if c == 0x22:
             return False
-        if c == 9 and arg[i - 1] not in (10,):
+        if c == 9 and arg[i - 1] != 10:
             return True
-        i += 2 if c == 0x5c else 1
+        if c == 0x5c:
+            if i + 1 < len(arg) and arg[i + 1] == 9:
+                return True
+            i += 2
+        else:
+            i += 1
     return False
+
+
+def classify(args):
+    """which known deviation of httpHeaderParseQuotedString (if any) the consulted quoted arguments can trigger"""
+    if any(has_special_pair(a) for a in args):
+        return "oracle:quoted-pair-dquote-or-backslash"
+    if any(has_htab(a) for a in args):
+        return "oracle:htab-in-quoted-string"
+    return None
 
 
 def oracle_cc(v, out):
@@ -246,22 +262,19 @@ def oracle_cc(v, out):
             return ("oracle:invalid-numeric-not-absent:" + n.decode(),
                     "%s is reported present (value %s) although no element carries a non-negative int that fits" %
                     (n.decode(), s1[FIELD[n]]))
-    # ---- quoted arguments, known deviations get their own signatures
+    # ---- quoted arguments; the two known deviations of httpHeaderParseQuotedString get their own signatures
     for fld, bit in (("pv", 1 << BIT[b"private"]), ("nc", ncbit)):
         if exp[fld] is None:
             continue
         got = unhx(s1[fld])
-        arg = exp["why"].get(fld)
+        args = exp["why"].get(fld, [])
         bit_ok = (mask & bit) == (emask & bit)
         if got != exp[fld] or not bit_ok:
-            if arg is not None and has_special_pair(arg):
-                return ("oracle:quoted-pair-dquote-or-backslash:" + fld,
-                        "quoted argument %r should read as %r (quoted-pair unescaped) but the code reports %r%s" %
-                        (arg, exp[fld], got, "" if bit_ok else " and a different presence bit"))
-            if arg is not None and has_htab(arg):
-                return ("oracle:htab-in-quoted-string:" + fld,
-                        "quoted argument %r contains HTAB (legal qdtext / OWS of a field-name list); expected %r, code reports %r%s" %
-                        (arg, exp[fld], got, "" if bit_ok else " and a different presence bit"))
+            sig = classify(args)
+            if sig:
+                return (sig + ":" + fld,
+                        "quoted argument(s) %r should read as %r (RFC quoted-string: quoted-pair unescaped, HTAB is qdtext) "
+                        "but the code reports %r%s" % (args, exp[fld], got, "" if bit_ok else " and a different presence bit"))
             if got != exp[fld]:
                 return ("oracle:quoted-value:" + fld, "expected %r, code reports %r" % (exp[fld], got))
     if (mask & cmp_mask) != (emask & cmp_mask):
@@ -300,14 +313,11 @@ def oracle_qs(ln, s, out):
     if st == "unclear":
         return None
     if st == "bad":
-        return None if out == "fail" else ("oracle:qs-accepts-invalid", "invalid quoted-string %r accepted: %s" % (s, out))
+        return None if out == "fail" else ((classify([s]) or "oracle:qs-accepts-invalid") + ":qs",
+                                           "invalid quoted-string %r accepted: %s" % (s, out))
     if out == "ok " + hx(txt):
         return None
-    if has_special_pair(s):
-        return ("oracle:quoted-pair-dquote-or-backslash:qs", "quoted-string %r should read as %r; code: %s" % (s, txt, out))
-    if has_htab(s):
-        return ("oracle:htab-in-quoted-string:qs", "quoted-string %r (HTAB is qdtext) should read as %r; code: %s" % (s, txt, out))
-    return ("oracle:qs-value", "quoted-string %r should read as %r; code: %s" % (s, txt, out))
+    return ((classify([s]) or "oracle:qs-value") + ":qs", "quoted-string %r should read as %r; code: %s" % (s, txt, out))
 
 
 def oracle(case, out):
